@@ -1969,6 +1969,7 @@ class Processor:
                 yield NodeCoords(
                     data, parent, parentref, translated_path, ancestry,
                     peekseg)
+                break # because each matching node is to be yielded only once
 
             # Then, recurse into each child to perform the same test.
             if isinstance(data, dict):
